@@ -14,6 +14,7 @@ import (
 
 // connInfo is the harness's ground truth about one connection (for the oracles).
 type connInfo struct {
+	mcid        int // number in the modelled loop, -1 = served by another loop (oracle-only)
 	cid         int
 	c           gnet.Conn
 	opened      bool
@@ -66,6 +67,19 @@ func (h *handler) OnShutdown(gnet.Engine) {
 	h.rec.mu.Unlock()
 }
 
+// obs/op write a trace line of a callback -- only for connections of the modelled loop
+func (h *handler) obs(ci *connInfo, l tr.Line) {
+	if ci == nil || ci.mcid >= 0 || ci.udp {
+		h.rec.Obs(l)
+	}
+}
+
+func (h *handler) op(ci *connInfo, l tr.Line) {
+	if ci == nil || ci.mcid >= 0 || ci.udp {
+		h.rec.Op(l)
+	}
+}
+
 func (h *handler) info(c gnet.Conn) *connInfo {
 	h.mu.Lock()
 	defer h.mu.Unlock()
@@ -74,11 +88,14 @@ func (h *handler) info(c gnet.Conn) *connInfo {
 	}
 	h.rec.mu.Lock()
 	cid, ok := h.rec.fdCid[c.Fd()]
-	h.rec.mu.Unlock()
-	if !ok {
+	mcid := -1
+	if ok {
+		mcid = h.rec.gidM[cid]
+	} else {
 		cid = -1
 	}
-	ci := &connInfo{cid: cid, c: c}
+	h.rec.mu.Unlock()
+	ci := &connInfo{cid: cid, mcid: mcid, c: c}
 	h.byC[c] = ci
 	h.all = append(h.all, ci)
 	return ci
@@ -120,7 +137,7 @@ func (h *handler) OnOpen(c gnet.Conn) (out []byte, action gnet.Action) {
 		h.rec.Fail("lifecycle", "double-open", fmt.Sprintf("OnOpen twice for cid %d", ci.cid))
 	}
 	ci.opened = true
-	h.rec.Obs(tr.L("cb", "open", tr.I(ci.cid)))
+	h.obs(ci, tr.L("cb", "open", tr.I(ci.mcid)))
 	if h.cfg.sndbuf > 0 {
 		_ = c.SetWriteBuffer(h.cfg.sndbuf)
 	}
@@ -129,9 +146,9 @@ func (h *handler) OnOpen(c gnet.Conn) (out []byte, action gnet.Action) {
 	if h.rnd.Chance(h.cfg.pOpenReply) {
 		out = h.payload(h.rnd.Pick([]int{1, 5, 100, 3000}))
 		ci.accepted = append(ci.accepted, out...)
-		h.rec.Op(tr.L("hret", actName(action), tr.X(out)))
+		h.op(ci, tr.L("hret", actName(action), tr.X(out)))
 	} else {
-		h.rec.Op(tr.L("hret", actName(action)))
+		h.op(ci, tr.L("hret", actName(action)))
 	}
 	return
 }
@@ -148,19 +165,19 @@ func (h *handler) OnTraffic(c gnet.Conn) gnet.Action {
 		h.rec.Fail("lifecycle", "traffic-after-close", fmt.Sprintf("cid %d", ci.cid))
 	}
 	ci.traffic++
-	h.rec.Obs(tr.L("cb", "traffic", tr.I(ci.cid)))
+	h.obs(ci, tr.L("cb", "traffic", tr.I(ci.mcid)))
 	h.checkInbound(ci, "traffic")
 	h.script(ci, "traffic")
 	a := h.pickAction(ci, "traffic")
-	h.rec.Op(tr.L("hret", actName(a)))
+	h.op(ci, tr.L("hret", actName(a)))
 	return a
 }
 
 func (h *handler) OnClose(c gnet.Conn, err error) gnet.Action {
 	ci := h.info(c)
 	h.rec.mu.Lock()
-	if h.rec.shutdown {
-		h.rec.add("op", tr.L("pick", tr.I(ci.cid)))
+	if h.rec.shutdown && ci.mcid >= 0 {
+		h.rec.add("op", tr.L("pick", tr.I(ci.mcid)))
 	}
 	h.rec.closing[ci.cid] = true
 	h.rec.mu.Unlock()
@@ -172,10 +189,10 @@ func (h *handler) OnClose(c gnet.Conn, err error) gnet.Action {
 	}
 	ci.closed = true
 	ci.closeErr = err != nil
-	h.rec.Obs(tr.L("cb", "close", tr.I(ci.cid), errSym(err)))
+	h.obs(ci, tr.L("cb", "close", tr.I(ci.mcid), errSym(err)))
 	h.script(ci, "close")
 	a := h.pickAction(ci, "close")
-	h.rec.Op(tr.L("hret", actName(a)))
+	h.op(ci, tr.L("hret", actName(a)))
 	return a
 }
 
@@ -188,12 +205,12 @@ func (h *handler) onUDP(c gnet.Conn) gnet.Action {
 	cid := h.rec.nextCid
 	h.rec.nextCid++
 	h.rec.mu.Unlock()
-	ci := &connInfo{cid: cid, c: c, udp: true, opened: true}
+	ci := &connInfo{cid: cid, mcid: cid, c: c, udp: true, opened: true}
 	src := "noaddr"
 	if c.RemoteAddr() != nil {
 		src = c.RemoteAddr().String()
 	}
-	h.rec.Obs(tr.L("cb", "udp", tr.I(cid), src))
+	h.obs(ci, tr.L("cb", "udp", tr.I(cid), src))
 	// C08: one datagram, one event, right peer, intact payload
 	h.mu.Lock()
 	sp := h.udpPeers[src]
@@ -238,7 +255,7 @@ func (h *handler) onUDP(c gnet.Conn) gnet.Action {
 	}
 	h.script(ci, "udp")
 	a := gnet.None
-	h.rec.Op(tr.L("hret", actName(a)))
+	h.op(ci, tr.L("hret", actName(a)))
 	return a
 }
 
@@ -467,7 +484,7 @@ type sink struct{ bytes.Buffer }
 // one the callback is for are written `h on <cid> <call> ...`
 func (h *handler) hl(ci *connInfo, args ...string) tr.Line {
 	if h.cur != nil && h.cur != ci {
-		return tr.L("h", append([]string{"on", tr.I(ci.cid)}, args...)...)
+		return tr.L("h", append([]string{"on", tr.I(ci.mcid)}, args...)...)
 	}
 	return tr.L("h", args...)
 }
@@ -477,61 +494,61 @@ func (h *handler) doCall(ci *connInfo, call string, n int, data []byte, cb bool)
 	rec := h.rec
 	switch call {
 	case "read":
-		rec.Op(h.hl(ci, "read", tr.I(n)))
+		h.op(ci, h.hl(ci, "read", tr.I(n)))
 		p := make([]byte, n)
 		m, err := c.Read(p)
 		es := "nil"
 		if err != nil {
 			es = "short"
 		}
-		rec.Obs(tr.L("hr", tr.I(ci.cid), "read", tr.X(p[:m]), es))
+		h.obs(ci, tr.L("hr", tr.I(ci.mcid), "read", tr.X(p[:m]), es))
 		h.expectConsumed(ci, p[:m], "Read")
 		ci.consumed += m
 		h.checkInbound(ci, "read")
 	case "next":
-		rec.Op(h.hl(ci, "next", tr.I(n)))
+		h.op(ci, h.hl(ci, "next", tr.I(n)))
 		b, err := c.Next(n)
 		es := "nil"
 		if err != nil {
 			es = "short"
 		}
-		rec.Obs(tr.L("hr", tr.I(ci.cid), "next", tr.X(b), es))
+		h.obs(ci, tr.L("hr", tr.I(ci.mcid), "next", tr.X(b), es))
 		h.expectConsumed(ci, b, "Next")
 		ci.consumed += len(b)
 		h.checkInbound(ci, "next")
 	case "peek":
-		rec.Op(h.hl(ci, "peek", tr.I(n)))
+		h.op(ci, h.hl(ci, "peek", tr.I(n)))
 		b, err := c.Peek(n)
 		es := "nil"
 		if err != nil {
 			es = "short"
 		}
-		rec.Obs(tr.L("hr", tr.I(ci.cid), "peek", tr.X(b), es))
+		h.obs(ci, tr.L("hr", tr.I(ci.mcid), "peek", tr.X(b), es))
 		h.expectConsumed(ci, b, "Peek")
 		if err == nil && n > 0 && len(b) != n {
 			rec.Fail("inbound-stream", "Peek-length", fmt.Sprintf("cid %d Peek(%d) returned %d bytes", ci.cid, n, len(b)))
 		}
 	case "discard":
-		rec.Op(h.hl(ci, "discard", tr.I(n)))
+		h.op(ci, h.hl(ci, "discard", tr.I(n)))
 		m, _ := c.Discard(n)
-		rec.Obs(tr.L("hr", tr.I(ci.cid), "discard", tr.I(m)))
+		h.obs(ci, tr.L("hr", tr.I(ci.mcid), "discard", tr.I(m)))
 		ci.consumed += m
 		h.checkInbound(ci, "discard")
 	case "writeto":
-		rec.Op(h.hl(ci, "writeto"))
+		h.op(ci, h.hl(ci, "writeto"))
 		var s sink
 		m, err := c.WriteTo(&s)
-		rec.Obs(tr.L("hr", tr.I(ci.cid), "writeto", tr.X(s.Bytes()), tr.I(int(m)), errSym(err)))
+		h.obs(ci, tr.L("hr", tr.I(ci.mcid), "writeto", tr.X(s.Bytes()), tr.I(int(m)), errSym(err)))
 		h.expectConsumed(ci, s.Bytes(), "WriteTo")
 		ci.consumed += s.Len()
 		h.checkInbound(ci, "writeto")
 	case "inbuf":
-		rec.Op(h.hl(ci, "inbuf"))
-		rec.Obs(tr.L("hr", tr.I(ci.cid), "inbuf", tr.I(c.InboundBuffered())))
+		h.op(ci, h.hl(ci, "inbuf"))
+		h.obs(ci, tr.L("hr", tr.I(ci.mcid), "inbuf", tr.I(c.InboundBuffered())))
 	case "outbuf":
-		rec.Op(h.hl(ci, "outbuf"))
+		h.op(ci, h.hl(ci, "outbuf"))
 		ob := c.OutboundBuffered()
-		rec.Obs(tr.L("hr", tr.I(ci.cid), "outbuf", tr.I(ob)))
+		h.obs(ci, tr.L("hr", tr.I(ci.mcid), "outbuf", tr.I(ob)))
 		rec.mu.Lock()
 		handed := rec.handed[ci.cid]
 		rec.mu.Unlock()
@@ -539,9 +556,9 @@ func (h *handler) doCall(ci *connInfo, call string, n int, data []byte, cb bool)
 			rec.Fail("outbound-count", "OutboundBuffered", fmt.Sprintf("cid %d OutboundBuffered %d != accepted %d - handed %d", ci.cid, ob, len(ci.accepted), handed))
 		}
 	case "write":
-		rec.Op(h.hl(ci, "write", tr.X(data)))
+		h.op(ci, h.hl(ci, "write", tr.X(data)))
 		m, err := c.Write(data)
-		rec.Obs(tr.L("hr", tr.I(ci.cid), "write", tr.I(m), errSym(err)))
+		h.obs(ci, tr.L("hr", tr.I(ci.mcid), "write", tr.I(m), errSym(err)))
 		if err == nil && ci.udp && ci.sender != nil {
 			h.mu.Lock()
 			ci.sender.expReplies = append(ci.sender.expReplies, append([]byte(nil), data...))
@@ -554,48 +571,48 @@ func (h *handler) doCall(ci *connInfo, call string, n int, data []byte, cb bool)
 		}
 	case "writev":
 		segs := splitSegs(data, n)
-		rec.Op(h.hl(ci, append([]string{"writev"}, segArgs(segs)...)...))
+		h.op(ci, h.hl(ci, append([]string{"writev"}, segArgs(segs)...)...))
 		cp := make([][]byte, len(segs))
 		copy(cp, segs)
 		m, err := c.Writev(cp)
-		rec.Obs(tr.L("hr", tr.I(ci.cid), "writev", tr.I(m), errSym(err)))
+		h.obs(ci, tr.L("hr", tr.I(ci.mcid), "writev", tr.I(m), errSym(err)))
 		if err == nil {
 			ci.accepted = append(ci.accepted, bytes.Join(segs, nil)...)
 		} else {
 			ci.untracked = true
 		}
 	case "flush":
-		rec.Op(h.hl(ci, "flush"))
+		h.op(ci, h.hl(ci, "flush"))
 		err := c.Flush()
 		es := errSym(err)
 		if err != nil && err.Error() == "gnet: server is going to be shutdown" {
 			es = "shutdown"
 		}
-		rec.Obs(tr.L("hr", tr.I(ci.cid), "flush", es))
+		h.obs(ci, tr.L("hr", tr.I(ci.mcid), "flush", es))
 		ci.unflushed = false
 	case "readfrom":
-		rec.Op(h.hl(ci, "readfrom", tr.X(data)))
+		h.op(ci, h.hl(ci, "readfrom", tr.X(data)))
 		m, err := c.ReadFrom(bytes.NewReader(data))
-		rec.Obs(tr.L("hr", tr.I(ci.cid), "readfrom", tr.I(int(m)), errSym(err)))
+		h.obs(ci, tr.L("hr", tr.I(ci.mcid), "readfrom", tr.I(int(m)), errSym(err)))
 		ci.accepted = append(ci.accepted, data...)
 		if len(data) > 0 {
 			ci.unflushed = true
 		}
 	case "asyncwrite":
-		rec.Op(h.hl(ci, "asyncwrite", tr.X(data), tr.B(cb)))
+		h.op(ci, h.hl(ci, "asyncwrite", tr.X(data), tr.B(cb)))
 		err := c.AsyncWrite(data, h.acb("write", ci, cb, data))
-		rec.Obs(tr.L("hr", tr.I(ci.cid), "asyncwrite", errSym(err)))
+		h.obs(ci, tr.L("hr", tr.I(ci.mcid), "asyncwrite", errSym(err)))
 	case "asyncwritev":
 		segs := splitSegs(data, n)
-		rec.Op(h.hl(ci, append([]string{"asyncwritev", tr.B(cb)}, segArgs(segs)...)...))
+		h.op(ci, h.hl(ci, append([]string{"asyncwritev", tr.B(cb)}, segArgs(segs)...)...))
 		err := c.AsyncWritev(segs, h.acb("writev", ci, cb, data))
-		rec.Obs(tr.L("hr", tr.I(ci.cid), "asyncwritev", errSym(err)))
+		h.obs(ci, tr.L("hr", tr.I(ci.mcid), "asyncwritev", errSym(err)))
 	case "wake":
-		rec.Op(h.hl(ci, "wake", tr.B(cb)))
+		h.op(ci, h.hl(ci, "wake", tr.B(cb)))
 		err := c.Wake(h.acb("wake", ci, cb, nil))
-		rec.Obs(tr.L("hr", tr.I(ci.cid), "wake", errSym(err)))
+		h.obs(ci, tr.L("hr", tr.I(ci.mcid), "wake", errSym(err)))
 	case "close":
-		rec.Op(h.hl(ci, "close", tr.B(cb)))
+		h.op(ci, h.hl(ci, "close", tr.B(cb)))
 		var err error
 		if cb {
 			err = c.CloseWithCallback(h.acb("close", ci, true, nil))
@@ -603,16 +620,16 @@ func (h *handler) doCall(ci *connInfo, call string, n int, data []byte, cb bool)
 			err = c.Close()
 		}
 		ci.localReq = true
-		rec.Obs(tr.L("hr", tr.I(ci.cid), "close", errSym(err)))
+		h.obs(ci, tr.L("hr", tr.I(ci.mcid), "close", errSym(err)))
 	case "elclose":
-		rec.Op(h.hl(ci, "elclose"))
+		h.op(ci, h.hl(ci, "elclose"))
 		ci.localReq = true
 		err := c.EventLoop().Close(c)
 		es := errSym(err)
 		if err != nil && err.Error() == "gnet: server is going to be shutdown" {
 			es = "shutdown"
 		}
-		rec.Obs(tr.L("hr", tr.I(ci.cid), "elclose", es))
+		h.obs(ci, tr.L("hr", tr.I(ci.mcid), "elclose", es))
 	}
 }
 
@@ -644,9 +661,12 @@ func (h *handler) acb(kind string, ci *connInfo, want bool, data []byte) gnet.As
 				es = "shutdown"
 			}
 		}
-		cid := ci.cid
+		cid := ci.mcid
 		if c == nil {
 			cid = -1
+		}
+		if ci.mcid < 0 && c != nil {
+			cid = -2 // not a modelled connection: the line is dropped by h.obs
 		}
 		if (kind == "write" || kind == "writev") && data != nil {
 			// asynchronous writes issued by one goroutine are carried out in issue order (C02/C03)
@@ -662,7 +682,7 @@ func (h *handler) acb(kind string, ci *connInfo, want bool, data []byte) gnet.As
 		} else if (kind == "write" || kind == "writev") && err != nil {
 			ci.untracked = true
 		}
-		h.rec.Obs(tr.L("acb", kind, tr.I(cid), es))
+		h.obs(ci, tr.L("acb", kind, tr.I(cid), es))
 		return nil
 	}
 }
